@@ -62,6 +62,20 @@ pub struct Gen<'a> {
     budget: isize,
 }
 
+/// text that mimics the library's own diagnostics (position suffixes, snippet framing, category words)
+pub const MESSAGE_FRAGMENTS: &[&str] = &[
+    " at line 3 column 5",
+    " at line 7 column 3\n\n\tsee",
+    " at line \u{663}",
+    " at line \u{b2} column \u{ff11}",
+    " at line 1 column ",
+    " at line 18446744073709551616 column 1",
+    "EOF while parsing",
+    "invalid type: string \"x\", expected u8 at line 1 column 2",
+    "\n\n\t",
+    "\n\t....^....\n",
+];
+
 impl<'a> Gen<'a> {
     pub fn new(r: &'a mut Rng, o: DocOpts) -> Self {
         let b = o.budget as isize;
@@ -314,6 +328,11 @@ impl<'a> Gen<'a> {
                 }
                 _ => s.push((b'0' + r.below(10) as u8) as char),
             }
+        }
+        // a dictionary of fragments that look like what the library itself prints: error messages
+        // echo input text, and the error plumbing re-reads its own messages
+        if self.o.unicode && r.chance(1, 48) {
+            s.push_str(*r.pick(MESSAGE_FRAGMENTS));
         }
         s
     }
